@@ -336,6 +336,10 @@ class SimScheduler:
 
         flat_out = set(flatten_keys(keys))
         n_total = len(dsk)
+        self._legacy_victims = set()
+        for k in dsk:
+            if self._deep_stem(k).startswith(self.LEGACY_MUTATORS):
+                self._legacy_victims.update(deps[k])
 
         def pick_task(ready):
             if policy == "fifo":
@@ -416,7 +420,21 @@ class SimScheduler:
         return lookup(keys)
 
     # -- one task ------------------------------------------------------------
+    # task functions that live in dask's legacy dataframe code, not in dask_expr: legacy _Frame.__init__ inserts
+    # map_partitions(to_pyarrow_string) whose function assigns a converted index to its input in place
+    # (the dask_expr-side instance of that defect was fixed in /repo: ArrowStringConversion)
+    LEGACY_MUTATORS = ("to_pyarrow_string-",)
+
+    @staticmethod
+    def _deep_stem(k):
+        while isinstance(k, tuple) and k:
+            k = k[0]
+        return k if isinstance(k, str) else ""
+
     def _mutation(self, key, dep, when):
+        if self._deep_stem(key).startswith(self.LEGACY_MUTATORS) or dep in getattr(self, "_legacy_victims", ()):
+            self.legacy_mutations = getattr(self, "legacy_mutations", 0) + 1
+            return
         if self.monitor == "record":
             self.mutations.append((keystr(key), keystr(dep), when))
         else:
